@@ -387,6 +387,46 @@ def rule_format_strings(ck: Check, repo: Repo, rid: str = "R6") -> None:
                                 f" 'ACME {{Research}} Lab', a path, an exception message) .format() raises KeyError / IndexError /"
                                 f" ValueError - inside an error handler this ends the whole run with a traceback", repo.loc(c))
     r.floor(20, ".format call sites", got=n)
+    # format SPECS: `{path:s}` hands the spec to type(value).__format__; object.__format__ (Path, exceptions, None, most
+    # classes) raises TypeError for every non-empty spec.  A spec is fine after a conversion (`!s`, `!r`) and on str / int /
+    # float values.
+    import string as _string
+    facts = None
+    n_spec = 0
+    for q, fn in sorted(repo.functions.items()):
+        for c in ast.walk(fn):
+            if not (isinstance(c, ast.Call) and isinstance(c.func, ast.Attribute) and c.func.attr == "format" and repo.enclosing_function(c) is fn):
+                continue
+            consts = [x.value for x in ast.walk(c.func.value) if isinstance(x, ast.Constant) and isinstance(x.value, str)]
+            for text in consts:
+                try:
+                    fields = list(_string.Formatter().parse(text))
+                except ValueError:
+                    continue
+                for _lit, field, spec, conv in fields:
+                    if field is None or not spec or conv:
+                        continue
+                    n_spec += 1
+                    name = field.split(".")[0].split("[")[0]
+                    arg = next((kw.value for kw in c.keywords if kw.arg == name), None)
+                    if arg is None and name.isdigit() and int(name) < len(c.args):
+                        arg = c.args[int(name)]
+                    safe = isinstance(arg, ast.Constant) and isinstance(arg.value, (str, int, float)) or \
+                        (isinstance(arg, ast.Call) and ast.unparse(arg.func) in ("str", "int", "float", "len", "repr", "round")) or isinstance(arg, ast.JoinedStr)
+                    ty = None
+                    if not safe and arg is not None:
+                        if facts is None:
+                            from ..typed import TypeFacts
+                            facts = TypeFacts(repo)
+                        ty = facts.type_of(arg)
+                        safe = ty in ("builtins.str", "builtins.int", "builtins.float", "builtins.bool")
+                    r.instance(f"spec:{q}:{field}:{spec}", {"function": q, "field": field, "spec": spec, "argument": ast.unparse(arg) if arg is not None else None, "type": ty, "safe": bool(safe)}, q)
+                    if not safe:
+                        r.violation(q, f"format spec `{{{field}:{spec}}}` on a value that is not a str / int / float ({ast.unparse(arg) if arg is not None else '?'}: {ty or 'unknown type'})",
+                                    "object.__format__ rejects every non-empty format spec with TypeError (pathlib.Path, exceptions and most"
+                                    " classes do not define __format__): the message cannot be built, and inside an error handler that ends the"
+                                    " run with a traceback instead of the report", repo.loc(c))
+    r.instance("format-specs", {"templates_with_specs": n_spec})
 
 
 
